@@ -32,7 +32,7 @@ Q_Amounts == {L(0), L(1), L(6), L(7)}
 Q_Wholes  == {-1, 0, 3, 4}
 Q_Mints   == {L(0), L(3)}
 Q_Ids     == {"i1"}
-Q_SignerSets == {{}, {"u1"}, {"ALPHA"}, {"c1"}}
+Q_SignerSets == {{}, {"u1"}, {"ALPHA"}, {"CMT"}, {"STORED"}, {"c1"}}
 Q_ActsFS  == {"deposit", "withdraw", "cheque", "candAdd", "candRemove", "setFee"}
 T_ActsFS  == Q_ActsFS \cup {"bind"}
 Q_ActsEm  == {"emit", "designate", "pay"}
@@ -56,7 +56,7 @@ S_Amounts == {Z, L(1), L(2), L(12345), G(1, 0), G(500, 0), G(8999, 99999999), G(
 S_Wholes  == {-1, 0, 1, 100, 8999, 9000, 9001}
 S_Mints   == {Z}
 S_Ids     == {"i1", "i2"}
-S_SignerSets == {{}, {"u1"}, {"u2"}, {"ALPHA"}, {"CMT"}, {"STORED"}, {"c1"}, {"c2"}, {"m0"}, {"m1"}, {"m2"}, {"X"}}
+S_SignerSets == {{}, {"u1"}, {"u2"}, {"ALPHA"}, {"CMT"}, {"STORED"}, {"STOREDMAJ"}, {"c1"}, {"c2"}, {"m0"}, {"m1"}, {"m2"}, {"X"}}
 S_Acts    == {"deposit", "withdraw", "cheque", "candAdd", "candRemove", "setFee", "alphaSame", "designate", "emit", "pay", "bind"}
 
 InitWith(nt, sk, nc, ix, ug, cg, un, wf, cf) ==
@@ -95,7 +95,7 @@ EmitScenario ==
   THEN PrintT("SCEN " \o ToJson([notary |-> notary, ns |-> Cardinality(dep.skeys), nc |-> dep.nc, idx |-> dep.aidx, steps |-> hist]))
   ELSE TRUE
 
-P_C19 == [][/\ C19_Deposit(ev') /\ C19_WithdrawFee(ev') /\ C19_ChequePays(rd, ev') /\ C19_ChequeAccepted(ev') /\ C19_CandidateFee(ev')
+P_C19 == [][/\ C19_Deposit(ev') /\ C19_WithdrawFee(ev') /\ C19_ChequePays(rd, ev') /\ C19_ChequeAccepted(ev') /\ C19_FeeApproved(rd, ev') /\ C19_CandidateFee(ev')
             /\ C19_Conservation(ev') /\ C19_EmitOnlyOwnNode(ev') /\ C19_EmitSplit(ev') /\ C19_OnlyGAS(ev')
             /\ C19_NoOtherMoves(ev')]_mcvars
 
